@@ -75,6 +75,12 @@ class LiteDRAMWishbone2Native(LiteXModule):
         ]
         fsm.act("WRITE",
             NextValue(aborted, ~wishbone.cyc | aborted),
+            # The command has been accepted: provide its data (without byte enables) even if the
+            # master gave up, the controller asks for it only once.
+            If(~wishbone.cyc | aborted,
+                port.wdata.valid.eq(1),
+                port.wdata.we.eq(0)
+            ),
             If(port.wdata.valid & port.wdata.ready,
                 wishbone.ack.eq(wishbone.cyc & ~aborted),
                 NextState("CMD")
